@@ -125,7 +125,7 @@ Qed.
 
 Definition max_ok (mx : Z) : Prop := mx = 0 \/ 8 <= mx < two64.
 
-(* a message the decoder is configured to accept: 1..513 segments (the code compares
+(* a message the decoder is configured to accept: 1..512 segments (513 in the code as found, which compared
    maxSeg > 512), whole-word segments, framed size within MaxMessageSize *)
 Definition frame_ok (mx : Z) (m : list (list Z)) : Prop :=
   1 <= len m <= max_stream_segments /\ segs_ok m /\ len (frame m) <= eff_max mx.
